@@ -167,8 +167,49 @@ class Diagonal(Contract):
         return [('length', result.n == S.n), ('diagonal-entries', self.spec(S, result, S.n))]
 
 
+class Constructor(Contract):
+    """matrix.diag / matrix.empty: what they hand to assemble_csr is well-formed CSR (so, by its contract, accepted)
+    and denotes the intended matrix (diagonal d / all zero)."""
+    prop = PROP
+
+    def __init__(self, which):
+        self.which = which
+        self.fn = 'matrix/__init__:' + which
+
+    def setup(self, cx):
+        S = State(received=None)
+
+        def assemble_csr(ctx, values, rowptr, colidx, ncols):
+            S.received = (values, rowptr, colidx, ncols)
+            return SOpaque('Matrix')
+        S.globals = {'numpy': Numpy(), 'assemble_csr': assemble_csr}
+        if self.which == 'diag':
+            d = Vec.fresh(cx, 'd', 'fp')
+            S.d = d
+            S.args = (d,)
+        else:
+            nr, nc = cx.int('nrows'), cx.int('ncols')
+            cx.assume(z3.And(nr >= 0, nc >= 0))
+            S.nr, S.nc = nr, nc
+            S.args = ((SInt(nr), SInt(nc)),)
+        return S
+
+    def ensures(self, cx, S, result):
+        if S.received is None:
+            raise Unsupported('assemble_csr not called')
+        values, rowptr, colidx, ncols = S.received
+        out = WF_clauses(values.n, rowptr, colidx, zint(ncols))
+        if self.which == 'diag':
+            n = S.d.n
+            out += [('square-n-by-n', z3.And(rowptr.n == n + 1, zint(ncols) == n)),
+                    ('entry-r-is-at-(r,r)', qforall(1, lambda r: z3.Implies(z3.And(0 <= r, r < n), z3.And(rowptr.sel(r) == r, colidx.sel(r) == r, SFp.same(SFp(*values.sel(r)), SFp(*S.d.sel(r)))))))]
+        else:
+            out += [('shape', z3.And(rowptr.n == S.nr + 1, zint(ncols) == S.nc)), ('no-entries', values.n == 0)]
+        return out
+
+
 def contracts():
-    return [AssembleCSR(), Diagonal()]
+    return [AssembleCSR(), Diagonal(), Constructor('diag'), Constructor('empty')]
 
 
 TRUSTED = ['pyvc symbolic executor and its Python model (DESIGN 2.3)',
